@@ -103,26 +103,29 @@ theorem C12_fresh_forwarder (n : NetSt) (now : Int) (name : String) (v4 : Bool) 
     · simp only [hgf, if_false]
       exact (tframe_tcpClose n now name s hs).fwd g hg hgf
 
+/-- **Hop names of forwarders decode back** (for every forwarder id, not only those a scenario
+    reaches): forwarder `f`'s hop name is `fwdHop f = "@" ++ toString f`; the world driver
+    (`forwardPkt`) recognises it by `startsWith "@"` and decodes it by `(hop.drop 1).toNat?`, which
+    yields `f` again; and distinct forwarders have distinct hop names. -/
+theorem C12_fwdHop_decodes (f : Nat) :
+    (fwdHop f).startsWith "@" = true
+    ∧ ((fwdHop f).drop 1).toString.toNat? = some f
+    ∧ ∀ g, fwdHop g = fwdHop f → g = f :=
+  ⟨Hs.fwdHop_startsWith f, Hs.fwdHop_decode f, fun _ h => Hs.fwdHop_inj h⟩
+
 /-- **Packets, ACKs and drop notifications for a detached forwarder vanish** (world driver): a
-    packet whose next hop names a forwarder that is detached (or does not exist) leaves the whole
-    world state unchanged; a queue's or dropper's drop notification for a segment whose sender's
-    forwarder is detached changes nothing (the dropper still prints its own `D` line). The hop
-    name of forwarder `f` is `fwdHop f = "@f"`; the driver decodes it with `toNat?`. -/
+    packet whose next hop is the hop name `fwdHop f` of a forwarder `f` that is detached (or does
+    not exist) leaves the whole world state unchanged; a queue's or dropper's drop notification
+    for a segment whose sender's forwarder is detached changes nothing (the dropper still prints
+    its own `D` line). No hypothesis about the decoding of hop names: `C12_fwdHop_decodes`. -/
 theorem C12_packets_for_detached_vanish (p : KParams) (fuel : Nat) (pk : Pkt) (s : KSt) :
-    (∀ hop rest, pk.hops = hop :: rest → hop.startsWith "@" = true →
-        ((hop.drop 1).toString.toNat?).bind s.net.fwdTarget = none →
-        forwardPkt p (fuel + 1) pk s = s)
+    (∀ f rest, pk.hops = fwdHop f :: rest → s.net.fwdTarget f = none → forwardPkt p (fuel + 1) pk s = s)
     ∧ (∀ qi fid, pk.dropFwd = some fid → s.net.fwdTarget fid = none → applyQEffs p qi [.dropCb pk] s = s)
     ∧ (∀ name fid, pk.dropFwd = some fid → s.net.fwdTarget fid = none →
         dropNotify s name pk = s.emit (describePkt "D" name s.k.now pk pk.hasDrop)) :=
-  ⟨fun hop rest hh h1 h2 => forwardPkt_detached p fuel pk s hop rest hh h1 h2,
+  ⟨fun f rest hh h2 => forwardPkt_detached_fwdHop p fuel pk s f rest hh h2,
    fun qi fid h1 h2 => applyQEffs_dropCb_detached p qi pk s fid h1 h2,
    fun name fid h1 h2 => dropNotify_detached s name pk fid h1 h2⟩
-
-/-- the decoding of forwarder hop names the previous theorem relies on, for the ids a scenario
-    can reach -/
-example : ∀ f < 64, (fwdHop f).startsWith "@" = true := by
-  intro f _; unfold fwdHop; simp
 
 /-! ## 2. A null channel is never dereferenced -/
 
@@ -315,6 +318,11 @@ example := C12_throw_cancels_all_timers k0 (KInv_run repaired rfl rfl _ {} KInv_
 /-- the TCP example state of C04: closing `s1` detaches forwarder 0 and leaves `a0`, `s3` alone -/
 example : (C04Ex.tcp0.tcpClose 0 "s1").1.fwdTarget 0 = none
     ∧ (C04Ex.tcp0.tcpClose 0 "s1").1.fwdTarget 1 = some "a0" := by decide
+
+/-- a payload segment on its last hop towards `s1`'s forwarder 0, after `s1` closed: it vanishes -/
+example (p : KParams) (s : KSt) (hs : s.net = (C04Ex.tcp0.tcpClose 0 "s1").1) :
+    forwardPkt p 1 { id := 3, ty := .payload, len := 1, ovh := 40, hops := [fwdHop 0], src := "10.0.0.2:80" } s = s :=
+  (C12_packets_for_detached_vanish p 0 _ s).1 0 [] rfl (by rw [hs]; decide)
 
 example := (C12_others_unaffected_tcp {} C04Ex.tcp0 0 "s1" _ rfl true {} {} { h := 1, caps := [] }
   { h := 2, bufs := [], stream := 0, off := 0 } 3 [] 5 (.ok 0)).1
